@@ -22,18 +22,23 @@ RULE = ("exhaustive: every string of length <=4 (quick and thorough; <=5 thoroug
         "string contains a wide or combining character, or that raises")
 ASSUMPTIONS = ["the property is stated for column ranges 0 <= a <= b <= width+2 over characters of width 0, 1 or 2 "
                "(cwcwidth gives -1 for control characters: the library raises ValueError there, tie-checked only)",
-               "zero-width characters occupy no column: one whose column lies strictly inside the requested range (a < col < b) "
-               "must be kept with its formatting, in order; at col == a or col == b either outcome is accepted (it combines with "
-               "a character that may lie outside); elsewhere it must be dropped; none may be invented or reordered"]
+               "zero-width characters occupy no column and go with their base (the nearest preceding character of non-zero "
+               "width): kept iff the last column of the base is requested; before any base iff the whole string is requested. "
+               "This is the layout-independent behaviour of the real code on the same text held in ONE run, which the oracle "
+               "also recomputes per case as a cross-check of its own cluster rule; no latitude is left"]
 
 LEVEL_NOTE = ("theorems are for EVERY wcwidth function with values 0/1/2 on the string (the library's own guard): width, "
               "width_at_offset, the width of a slice (C10_slice_width), the column view (C10_cols) and the per-character "
-              "column-interval relation SliceRel. The STRICT relation (a zero-width character strictly inside the requested "
-              "columns must be kept) is false for the code - open finding D30, C10_D30_witness - and is proved on the "
-              "complement of the footprint (C10_slice_partial, hypothesis D30Free); the non-strict relation is proved for every "
-              "run layout (C10_slice_columns_partial). Latitude left by the statement: a zero-width character exactly at "
-              "column a or b may be kept or dropped. Trusted: Lean kernel + propext/Classical.choice/Quot.sound, the "
-              "hand-written model, the wire codec; cwcwidth is a parameter whose values are read live per run")
+              "column-interval relation SliceRel. The FULL slicing statement has no latitude: a zero-width character goes "
+              "with its base (kept iff the base's last column is requested; without a base iff the whole string is "
+              "requested) - the behaviour of the code on a one-run string (D30Free_single). It is false for multi-run "
+              "strings - open finding D30, four witness theorems C10_D30_witness_* - and is proved on the exact complement of "
+              "the footprint (C10_slice_partial, hypothesis D30Free); everything not about zero-width characters is proved for "
+              "every run layout (C10_slice_columns_partial). The oracle's expectation is an independent cluster computation "
+              "cross-checked against the real one-run rendition; a failure is attributed to D30 only when the result equals "
+              "the expectation with exactly the footprint runs' leading zero-width characters removed/added. Trusted: Lean "
+              "kernel + propext/Classical.choice/Quot.sound, the hand-written model, the wire codec; cwcwidth is a parameter "
+              "whose values are read live per run")
 
 # ------------------------------------------------------------------------------------------------ cases
 def mk_cases(ctx):
@@ -53,7 +58,10 @@ def mk_cases(ctx):
                     for b in range(a, W + 3):
                         cases.append(dict(op="slice", f=ch, a=a, b=b))
     # the Lean witness of finding D30 (C10_D30_witness), replayed on the real code on every run
-    cases.append(dict(op="slice", f=[("a", {}), ("\u0301bcc", {"fg": 31})], a=0, b=3))
+    cases.append(dict(op="slice", f=[("a", {}), ("\u0301bcc", {"fg": 31})], a=0, b=3))          # C10_D30_witness_inside
+    cases.append(dict(op="slice", f=[("a", {"fg": 31}), ("\u0301", {"fg": 32})], a=0, b=1))     # C10_D30_witness_end
+    cases.append(dict(op="slice", f=[("e", {"fg": 31}), ("\u0301x", {"fg": 34})], a=1, b=2))    # C10_D30_witness_start
+    cases.append(dict(op="slice", f=[("\u0301", {"fg": 31}), ("a", {})], a=0, b=1))             # C10_D30_witness_lead
     ctx.exhaustive.append("C10: %d strings (len<=%d over narrow/wide/combining) x all <=2-cut layouts x all 0<=a<=b<=W+2: %d cases"
                           % (nstr, maxlen, len(cases)))
     r = ctx.rng
@@ -256,76 +264,95 @@ def _oracle(c):
     want = expected_columns(columns_of(cs), a, b)
     if gcols != want:
         return "slice columns differ: got %r expected %r" % (gcols, want)
-    # zero-width characters and the exact interleaving: per-character pattern written from the property text
-    if not matches(got, pattern(cs, a, b, strict=False)):
-        return "slice invents, moves or restyles zero-width characters: got %r from %r" % (got, cs)
-    if not matches(got, pattern(cs, a, b, strict=True)):
-        return "slice drops a zero-width character lying strictly inside the requested columns: got %r from %r" % (got, cs)
-    return None
-
-
-def pattern(cs, a, b, strict):
-    """what columns a..b-1 hold, character by character: ('req', cell) must appear, ('opt', cell) may appear, in this
-    order and nothing else. A character wholly inside is required; any other character of non-zero width contributes
-    one required space (its formatting) per column it has inside; a zero-width character at column col is required when
-    a < col < b (strict), optional when col == a or col == b (or, non-strict, anywhere in [a, b]), absent otherwise."""
-    pat, col = [], 0
-    for ch, at in cs:
-        w = wc(ch)
-        if w == 0:
-            if strict and a < col < b:
-                pat.append(("req", (ch, at)))
-            elif a <= col <= b:
-                pat.append(("opt", (ch, at)))
-        else:
-            if a <= col and col + w <= b:
-                pat.append(("req", (ch, at)))
-            else:
-                pat += [("req", (" ", at))] * max(0, min(col + w, b) - max(col, a))
-            col += w
-    return pat
-
-
-def matches(got, pat):
-    """does the cell list `got` match the pattern (optional tokens may be skipped)?"""
-    reach = {0}                       # positions of `got` reachable after the tokens read so far
-    for kind, cell in pat:
-        nxt = set()
-        for i in reach:
-            if i < len(got) and got[i] == cell:
-                nxt.add(i + 1)
-            if kind == "opt":
-                nxt.add(i)
-        reach = nxt
-        if not reach:
-            return False
-    return len(got) in reach
+    # characters, order, formatting and the placement of zero-width characters: exact comparison with the
+    # cluster-based expectation (a combining character goes with its base)
+    want_cells = cluster_expectation(cs, a, b)
+    ref = one_run_text(c["f"], a, b)
+    if ref is not None and ref != "".join(ch for ch, _ in want_cells):
+        return "the one-run rendition of the text gives %r, the cluster rule %r" % (ref, "".join(ch for ch, _ in want_cells))
+    if got == want_cells:
+        return None
+    shapes, override = d30_runs(c["f"], a, b)
+    if shapes and got == cluster_expectation(cs, a, b, override):
+        return D30_MSG + " [%s]: got %r, the same text in one run gives %r" % (",".join(sorted(set(shapes))), got, want_cells)
+    return "slice differs from what columns %d..%d hold: got %r expected %r" % (a, b - 1, got, want_cells)
 
 
 oracle = safe_oracle(_oracle)
 D30 = "D30"
+D30_MSG = "slice keeps/drops the zero-width characters that start a run differently from the same text in one run"
 
 
-def d30_footprint(c):
-    """precise predicate of known finding D30: some run starts at a column `counter` with a < counter < b < counter + width(run)
-    and its first character is zero-width"""
-    if c.get("op") != "slice" or c["a"] is None or c["b"] is None:
-        return False
-    a, b, counter = c["a"], c["b"], 0
-    for s, _ in c["f"]:
+def cluster_expectation(cs, a, b, override=None):
+    """What columns a..b-1 hold, written from the property text in terms of clusters (a base character of non-zero width
+    plus the zero-width characters that follow it): a base wholly inside is kept; any other base becomes one space
+    (its formatting) per column it has inside; the zero-width characters of a cluster are kept iff the LAST column of
+    their base is requested (so also after the space that replaces a wide base cut by the left edge); zero-width
+    characters before any base are kept iff the whole string is requested (a == 0 and b >= width > 0).
+    `override` {cell index: bool} replaces the decision for single zero-width characters (used only to recognise the
+    footprint of finding D30)."""
+    W = sum(wc(ch) for ch, _ in cs)
+    out, col = [], 0
+    keep_marks = a == 0 and b >= W > 0
+    for i, (ch, at) in enumerate(cs):
+        w = wc(ch)
+        if w == 0:
+            if (override[i] if override and i in override else keep_marks):
+                out.append((ch, at))
+        else:
+            if a <= col and col + w <= b:
+                out.append((ch, at))
+            else:
+                out += [(" ", at)] * max(0, min(col + w, b) - max(col, a))
+            col += w
+            keep_marks = a <= col - 1 < b
+    return out
+
+
+_one_run = {}
+
+
+def one_run_text(chunks, a, b):
+    """reference: the text the REAL code returns for the same characters held in ONE run (layout-independent behaviour)"""
+    text = text_of(chunks)
+    key = (text, a, b)
+    if key not in _one_run:
+        try:
+            _one_run[key] = F.FmtStr(F.Chunk(text)).width_aware_slice(slice(a, b)).s if text else None
+        except Exception:  # noqa: BLE001
+            _one_run[key] = None
+    return _one_run[key]
+
+
+def d30_runs(chunks, a, b):
+    """the runs in the footprint of D30 -> (shape names, {cell index of a leading zero-width character: the code's decision}).
+    A run that begins with zero-width characters and starts at column `counter`: the code keeps them only through its
+    whole-run shortcut; the one-run rule keeps them iff a < counter <= b (at column 0: iff the whole string is requested)."""
+    W = sum(wc(ch) for s, _ in chunks for ch in s)
+    shapes, override, counter, idx = [], {}, 0, 0
+    for s, _ in chunks:
         ws = [wc(ch) for ch in s]
-        if any(w not in (0, 1, 2) for w in ws):
-            return False
         cw = sum(ws)
-        if s and ws[0] == 0 and a < counter < b < counter + cw:
-            return True
+        p = 0
+        while p < len(ws) and ws[p] == 0:
+            p += 1
+        if p:
+            code = (a <= counter and counter + cw <= b and cw > 0) or (cw == 0 and a < counter < b)
+            rule = (a < counter <= b) or (counter == 0 and a == 0 and b >= W > 0)
+            if code != rule:
+                shapes.append("S3-kept-at-slice-start" if code else
+                              "S4-columnless-run-at-column-0" if counter == 0 else
+                              "S2-dropped-at-slice-end" if counter == b else "S1-dropped-inside")
+                for k in range(p):
+                    override[idx + k] = code
         counter += cw
-    return False
+        idx += len(s)
+    return shapes, override
 
 
 def footprint(c, what):
-    if what.startswith("slice drops a zero-width character lying strictly inside") and d30_footprint(c):
-        return D30
+    if what.startswith(D30_MSG):
+        return D30          # the oracle has checked that the result equals the D30-explained expectation exactly
     return None
 
 
@@ -378,7 +405,11 @@ def check(ctx):
         w = oracle(c)
         ctx.count(c, nontrivial=nontrivial(c), tag=c["op"])
         if w:
-            ctx.violation(w, c, footprint(c, w))
+            fp = footprint(c, w)
+            if fp == D30:
+                for shape in w[len(D30_MSG) + 2:].split("]")[0].split(","):
+                    ctx.dist["D30-" + shape] += 1
+            ctx.violation(w, c, fp)
     for c in extra:
         ctx.count(c, nontrivial=nontrivial(c), tag="extra-" + c["op"])
 
